@@ -163,8 +163,8 @@ func BuildHeader(version int, typ byte, st, rt uint32) []byte {
 
 type DHCommit struct{ EncGx, HashGx []byte }
 type DHKey struct{ Gy *big.Int }
-type RevealSig struct{ R, EncSig, MAC []byte }
-type Sig struct{ EncSig, MAC []byte }
+type RevealSig struct{ R, EncSig, MAC, Rest []byte }
+type Sig struct{ EncSig, MAC, Rest []byte }
 type Data struct {
 	Flag       byte
 	SKID, RKID uint32
@@ -194,6 +194,9 @@ func (m *DHKey) Bytes() []byte { return PutMPI(nil, m.Gy) }
 func ParseRevealSig(body []byte) (*RevealSig, error) {
 	r := &reader{b: body}
 	m := &RevealSig{R: r.data(), EncSig: r.data(), MAC: r.fixed(20)}
+	if r.err == nil {
+		m.Rest = r.rest()
+	}
 	return m, r.err
 }
 func (m *RevealSig) Bytes() []byte {
@@ -202,6 +205,9 @@ func (m *RevealSig) Bytes() []byte {
 func ParseSig(body []byte) (*Sig, error) {
 	r := &reader{b: body}
 	m := &Sig{EncSig: r.data(), MAC: r.fixed(20)}
+	if r.err == nil {
+		m.Rest = r.rest()
+	}
 	return m, r.err
 }
 func (m *Sig) Bytes() []byte { return append(PutData(nil, m.EncSig), m.MAC...) }
